@@ -57,3 +57,16 @@ func BeforeRWLock(mu *sync.RWMutex) {
 	}
 	mu.Unlock()
 }
+
+// BeforeRLock 同 BeforeLock，用于获取读锁之前（读锁可能跨调度点持有）。
+func BeforeRLock(mu *sync.RWMutex) {
+	f := Yield
+	if f == nil {
+		return
+	}
+	for !mu.TryRLock() {
+		Probe("lock.contended")
+		f("lockwait")
+	}
+	mu.RUnlock()
+}
